@@ -68,8 +68,9 @@ def gen_history(rng, nobj, nops):
         c = rng.below(100)
         if c < 60: ops.append("S%d:%d" % (rng.below(n), rng.below(3)))
         elif c < 75: ops.append("I%d:%d:%d" % (rng.below(n), rng.below(3), 1 + rng.below(5)))
-        elif c < 85 and n < 9: ops.append("C%d" % rng.below(n)); n += 1
-        elif c < 95 and n < 9: ops.append("B%d" % rng.below(n)); n += 1
+        elif c < 83 and n < 9: ops.append("C%d" % rng.below(n)); n += 1
+        elif c < 91 and n < 9: ops.append("B%d" % rng.below(n)); n += 1
+        elif c < 95 and n < 9: ops.append("F%d:%d" % (rng.below(n), rng.below(n))); n += 1     # clone_from (plain clone if the types differ)
         else: ops.append("D%d" % rng.below(n))
     for k in range(n):
         ops.append("D%d" % k)      # every object, clones and rebuilds included
@@ -111,6 +112,17 @@ def correspond(ctx):
             hist.append((rng.u64(), sp, 1, ["D0", "I0:0:1300", "S0:1", "C0", "I1:1:700", "I0:1:700", "D0", "D1"]))
     for _ in range(40 if tier == "quick" else 600):
         hist.append((rng.u64(), weighted_spec(rng), 1, ["D0", "I0:0:50", "C0", "B0", "S1:1", "S0:2", "S2:2", "I1:0:40", "I2:1:40", "D0", "D1", "D2"]))
+    # clone_from between two values of the SAME type with different parameters (for the weighted indices: the same number of
+    # weights, different sums): the overwritten value must behave and print exactly as its source
+    for _ in range(60 if tier == "quick" else 800):
+        for attempt in range(200):
+            a, b = (weighted_spec(rng), weighted_spec(rng)) if rng.chance(1, 2) else (rand_spec(rng), rand_spec(rng))
+            fa, fb = a.split(":"), b.split(":")
+            if fa[:2] == fb[:2] and a != b and (fa[0] not in ("walias", "wtree") or len(fa[2].split(",")) == len(fb[2].split(","))):
+                break
+        else:
+            continue
+        hist.append((rng.u64(), a + ";" + b, 2, ["D0", "D1", "F0:1", "F1:0", "I2:0:30", "I1:0:30", "I3:1:30", "I0:1:30", "S2:2", "S1:2", "D0", "D1", "D2", "D3"]))
     lines = []
     for seed, specs, nobj, ops in hist:
         lines.append("pure %x 0 %s %s" % (seed, specs, " ".join(ops)))                 # the history itself
@@ -160,6 +172,7 @@ def correspond(ctx):
         src, nxt, last = {}, nobj, {}
         for op in ops:
             if op[0] in "CB": src[str(nxt)] = op[1:]; nxt += 1
+            elif op[0] == "F": src[str(nxt)] = op[1:].split(":")[1]; nxt += 1
         for op, res in zip(ops, main):
             if op[0] == "D": last[op[1:]] = res
         for k, k0 in src.items():
@@ -202,7 +215,7 @@ def correspond(ctx):
     return {
         "evaluations": len(hist) + len(vlines), "distinct_nontrivial": len({(h[1], tuple(h[3])) for h in hist}),
         "rule": "random histories over 1-4 distribution objects of random families/parameters (all 27 samplers and the two weighted index types over float and integer weights) and 3 seeded streams: "
-                "sample, sample_iter.take(n), clone, rebuild-from-parameters, Debug; each history is run 7 ways on the real crate (twice, with fresh "
+                "sample, sample_iter.take(n), clone, clone_from (incl. between two values of one type with different parameters), rebuild-from-parameters, Debug; each history is run 7 ways on the real crate (twice, with fresh "
                 "objects for every sample, with sample_iter expanded, projected onto each stream) and all outputs (value bits and stream position) "
                 "must agree; distinct = distinct (objects, history)",
         "samples": [lines[0][:300], outs[0][:300]],
